@@ -15,7 +15,8 @@ resource; no size bound.
                     side conditions are needed), C13_file_info_fixed_and_langs
 (c) robustness      C13_node_extent, C13_level_nodes_ordered_disjoint, C13_error_ends_level, C13_tree_nested,
                     C13_strings_stay_in_their_table
-(d) totality        C13_parse_tlv_never_panics, C13_visit_total, C13_queries_total, C13_try_from,
+(d) totality        C13_parse_tlv_never_panics, C13_parse_tlv_guards, C13_slice_operations_panic,
+                    C13_strip_nul_never_panics, C13_visit_total, C13_queries_total, C13_try_from,
                     C13_item_bound, C13_node_and_event_bound, C13_language_parse_hex
 -/
 namespace Pelite.Version
@@ -275,12 +276,43 @@ theorem C13_strings_stay_in_their_table (ws : List Nat) :
 /-! ## (d) totality, bounds -/
 
 /-- **`parse_tlv` never panics** (C02), for every word list and every value-length convention:
-it answers `Ok` or `Err(Invalid)`. -/
+it answers `Ok` or `Err(Invalid)`.  `parseTlv` is the function the driver runs; it indexes and
+slices with the panicking operations of a checked build (`Sl.idx`, `Sl.sliceFrom`, `Sl.sliceTo`, one
+at each `words[i]` / `&words[a..b]` of the Rust code, each with a `panic` outcome when out of range),
+so this is a statement about the guards of the code, see `C13_parse_tlv_guards`. -/
 theorem C13_parse_tlv_never_panics (vlt : Vlt) (w : Sl) :
     (∃ t r, parseTlv vlt w = .ok (t, r)) ∨ parseTlv vlt w = .err .invalid :=
   parseTlv_total vlt w
 
-/-- **`visit` returns for every visitor and every word list**: no panic (C02), no unaligned or
+/-- **Every index and every slice bound of `parse_tlv` is in range where it is used**: the checked
+function equals the one written with total `take` / `drop` (and is therefore not `panic`, the total
+one has no such outcome).  The proof (Model/Version.lean, `parseTlv_eq_total`) discharges the range
+condition of each site from the check or clamp that precedes it:
+`words[0]`, `words[1]` from `words.len() >= 4`; `&words[..length]` from `length <= words.len()`;
+`&words[3..]` from `length = max(4, _)`; `&words[..value_length]` from `value_length <= words.len()`;
+the three `&words[min(_, words.len())..]` from the `cmp::min`. -/
+theorem C13_parse_tlv_guards (vlt : Vlt) (w : Sl) : parseTlv vlt w = parseTlvTotal vlt w :=
+  parseTlv_eq_total vlt w
+
+/-- The panicking operations do panic out of range, and the clamp of the key padding is what keeps
+`parse_tlv` from it: on the node `[10, 0, 1, 'A', 0]` (a key of odd length ending its node) the
+unclamped bound `key.len().align_to(2) + 4 = 6` exceeds the node's 5 words — the panic of the
+unfixed code — while the clamped slice is the empty rest. -/
+theorem C13_slice_operations_panic :
+    (⟨0, [10, 0, 1, 65, 0]⟩ : Sl).sliceFrom (align2 1 + 4) siteBody = .panic siteBody ∧
+    (⟨0, [10, 0, 1, 65, 0]⟩ : Sl).sliceFrom (min (align2 1 + 4) 5) siteBody = .ok ⟨5, []⟩ ∧
+    (⟨0, [1, 2]⟩ : Sl).idx 2 siteLen = .panic siteLen ∧ (⟨0, [1, 2]⟩ : Sl).idx 1 siteLen = .ok 2 ∧
+    (⟨0, [1, 2]⟩ : Sl).sliceTo 3 siteNode = .panic siteNode ∧ (⟨0, [1, 2]⟩ : Sl).sliceTo 2 siteNode = .ok ⟨0, [1, 2]⟩ := by
+  decide
+
+/-- **Stripping the terminating NUL never panics**: `&value[..value.len() - 1]` (a `usize`
+subtraction and a slicing, both panicking in the model) is only reached when the last word is `0`,
+so the value is not empty. -/
+theorem C13_strip_nul_never_panics (v : Sl) : stripNulChk v = .ok (stripNul v) :=
+  stripNulChk_eq v
+
+/-- **`visit` returns for every visitor and every word list**: no panic (C02; every `parse_tlv` and
+every terminator stripping of the walk is the checked one), no unaligned or
 out-of-bounds unchecked access (the `&*(ptr as *const VS_FIXEDFILEINFO)` is only reached on a
 32-bit boundary), no divergence (C03; the loops are well-founded recursions on the remaining input,
 there is no fuel).  The result is the structural walk over the parse tree. -/
